@@ -416,7 +416,12 @@ def shape_facts():
         guarded = []
         for pos in calls:
             ok = False
-            for m in re.finditer(r"if\s*!\s*classic\b[^{]*", hk):
+            for m in re.finditer(r"if\s*(!\s*classic\b[^{]*)", hk):
+                cond = " ".join(m.group(1).split())
+                # the guard must imply !classic: `!classic` alone or conjoined with further
+                # conditions; any disjunction can let the call through in classic mode
+                if "||" in cond or not re.match(r"^!\s*classic(\s*&&.*)?$", cond):
+                    continue
                 blk_start = hk.find("{", m.end() - 1)
                 blk = block_after(hk, m.end() - 1)
                 if blk_start <= pos < blk_start + len(blk):
